@@ -7,8 +7,9 @@ ROOT = os.path.dirname(os.path.dirname(os.path.abspath(__file__)))
 def sh(cmd, **kw):
   return subprocess.run(cmd, capture_output=True, text=True, **kw)
 
-def validate(pid, letter):
-  src = '/tmp/seed_%s/out/%s' % (pid, letter)
+def validate(pid, letter, rnd=1):
+  src = '/tmp/seed%s_%s/out/%s' % ('' if rnd == 1 else str(rnd), pid, letter)
+  out_letter = letter if rnd == 1 else {'A': 'C', 'B': 'D'}[letter]
   if not os.path.exists(os.path.join(src, 'patch.diff')):
     return (pid, letter, 'missing', '')
   d = tempfile.mkdtemp(prefix='vfseed_')
@@ -26,12 +27,12 @@ def validate(pid, letter):
     ok = bad.returncode != 0 and good.returncode == 0 and base.returncode == 0
     info = 'demo(mutant) rc=%s demo(unchanged) rc=%s baseline: %s' % (bad.returncode, good.returncode, base.stdout.splitlines()[0] if base.stdout else base.stderr[-200:])
     if ok:
-      dst = os.path.join(ROOT, 'seeded', '%s-%s' % (pid, letter))
+      dst = os.path.join(ROOT, 'seeded', '%s-%s' % (pid, out_letter))
       os.makedirs(dst, exist_ok=True)
       for n in ('patch.diff', 'demo.py', 'notes.md'):
         if os.path.exists(os.path.join(src, n)):
           shutil.copy(os.path.join(src, n), os.path.join(dst, n))
-      meta = {'property': pid, 'checks': [pid], 'origin': 'independent sub-agent given only the property text and a scratch worktree',
+      meta = {'property': pid, 'checks': [pid], 'origin': 'independent sub-agent given only the property text and a scratch worktree (round %d)' % rnd,
               'needs': open(os.path.join(src, 'notes.md')).read()[:1500] if os.path.exists(os.path.join(src, 'notes.md')) else '',
               'validated': {'demo_with_change_rc': bad.returncode, 'demo_unchanged_rc': good.returncode, 'pinned_suite': base.stdout.splitlines()[0],
                             'applied_to': sh(['git', '-C', '/repo', 'rev-parse', '--short', 'HEAD']).stdout.strip()},
@@ -45,7 +46,11 @@ def validate(pid, letter):
     shutil.rmtree(d, ignore_errors=True)
 
 if __name__ == '__main__':
-  jobs = [(p, l) for p in sys.argv[1:] for l in 'AB']
+  jobs = []
+  for a in sys.argv[1:]:
+    pid, _, rnd = a.partition(':')
+    for l in 'AB':
+      jobs.append((pid, l, int(rnd or 1)))
   with ThreadPoolExecutor(8) as ex:
     for r in ex.map(lambda j: validate(*j), jobs):
       print(*r)
